@@ -634,19 +634,26 @@ class Program:
             for s in d['sigs']:
                 self.sigs[s['path']] = s
         self.n_bodies = len(self.fns)
+        # `impl<'a> T<'a>` items print as `T::<'a>::f`: accept the spelling without generics too
+        self.alias = {}
+        for pth in self.fns:
+            b = strip_generics(pth)
+            if b != pth:
+                self.alias.setdefault(b, pth)
         self._callers = None
         self._cg = None
         self._trait_impls = None
 
     # ------------------------------------------------------------------ lookups
     def fn(self, path, required=True):
-        f = self.fns.get(path)
+        f = self.fns.get(path) or self.fns.get(self.alias.get(path, ''))
         if f is None and required:
             raise CheckError('anchor function missing: %s' % path)
         return f
 
     def body(self, path, required=True):
         """the code body: for an async fn that is `path::{closure#0}`."""
+        path = path if path in self.fns else self.alias.get(path, path)
         f = self.fns.get(path + '::{closure#0}')
         if f is not None and self.fns.get(path) is not None and len(self.fns[path].blocks) <= 12:
             # async fn: the outer body only builds the coroutine
